@@ -64,29 +64,16 @@ impl StunAttribute {
     pub uninterp spec fn post_wire(&self, enc: Seq<u8>, val: Seq<u8>) -> Seq<u8>;
     pub uninterp spec fn post_ok(&self, enc: Seq<u8>, val: Seq<u8>) -> bool;
 
-    #[verifier::external_body]
-    pub fn attribute_type(&self) -> (r: AttributeType)
-        ensures r.0 == self.spec_type(),
-    { unimplemented!() }
-
-    #[verifier::external_body]
-    pub fn encode(&self, ctx: AttributeEncoderContext) -> (r: Result<usize, StunError>)
-        ensures
+    // the three functions below are declared with exactly the contracts unit `attrs` proves for the real
+    // `StunAttribute` (the enum over all 39 kinds and its generated dispatch); the one added clause is a fact of Rust's type
+    // system (the length of the slice behind a `&mut [u8]` cannot change), which `attrs` does not restate
+//@import attrs :: stun_rs :: mod attributes > impl StunAttribute > fn attribute_type
+//@import! attrs :: stun_rs :: mod attributes > impl EncodeAttributeValue for StunAttribute > fn encode
             final(ctx.raw_value)@.len() == old(ctx.raw_value)@.len(),
-            r is Ok <==> self.encodable(ctx.encoded_msg@) && old(ctx.raw_value)@.len() >= self.wire(ctx.encoded_msg@).len(),
-            r is Ok ==> r->Ok_0 == self.wire(ctx.encoded_msg@).len()
-                && final(ctx.raw_value)@.subrange(0, r->Ok_0 as int) == self.wire(ctx.encoded_msg@)
-                && (forall|i: int| r->Ok_0 <= i < old(ctx.raw_value)@.len() ==> final(ctx.raw_value)@[i] == old(ctx.raw_value)@[i]),
-    { unimplemented!() }
-
-    #[verifier::external_body]
-    pub fn post_encode(&self, ctx: AttributeEncoderContext) -> (r: Result<(), StunError>)
-        ensures
+//@end
+//@import! attrs :: stun_rs :: mod attributes > impl EncodeAttributeValue for StunAttribute > fn post_encode
             final(ctx.raw_value)@.len() == old(ctx.raw_value)@.len(),
-            self.post_wire(ctx.encoded_msg@, old(ctx.raw_value)@).len() == old(ctx.raw_value)@.len(),
-            r is Ok <==> self.post_ok(ctx.encoded_msg@, old(ctx.raw_value)@),
-            r is Ok ==> final(ctx.raw_value)@ == self.post_wire(ctx.encoded_msg@, old(ctx.raw_value)@),
-    { unimplemented!() }
+//@end
 }
 
 //@item! stun_rs :: mod message > struct StunMessage
